@@ -206,9 +206,19 @@ def run_case(case):
             adj.append(row)
         m = compare.max_matching(adj, len(gcs))
         used = set(m.values())
+        def _f12(bb=None, ref_name=None):
+            # F12: a CFF contour spanning more than a Type 2 operand can hold is wrapped by the charstring encoder
+            if not fmt.startswith("cff"):
+                return None
+            if bb is not None and max(bb[2] - bb[0], bb[3] - bb[1]) > 32767:
+                return "F12-cff-charstring-delta-overflow"
+            if ref_name and rc._cff_wrapped(font, ref_name):
+                return "F12-cff-charstring-delta-overflow"
+            return None
+
         for a_, (li, rl, rc_) in enumerate(rcs):
             if a_ not in m:
-                res["violations"].append({"what": "source outline has no counterpart in the glyph", "glyph": name, "layer": li, "source_bbox": geom.bbox([rc_]), "pieces": [geom.bbox([g[2]]) for g in gcs][:8], "format": fmt, "config": cfg})
+                res["violations"].append({"mechanism": _f12(geom.bbox([rc_])), "what": "source outline has no counterpart in the glyph", "glyph": name, "layer": li, "source_bbox": geom.bbox([rc_]), "pieces": [geom.bbox([g[2]]) for g in gcs][:8], "format": fmt, "config": cfg})
             else:
                 res["maxes"]["max_h_over_eps"] = max(res["maxes"].get("max_h_over_eps", 0), ratios[(a_, m[a_])])
                 if gcs[m[a_]][1]["transformed"]:
@@ -217,7 +227,7 @@ def run_case(case):
             if b_ in used:
                 continue
             if abs(geom.area([gc_])) > 1.0:
-                res["violations"].append({"what": "glyph contains visible geometry that is in no source", "glyph": name, "piece_bbox": geom.bbox([gc_]), "format": fmt, "config": cfg})
+                res["violations"].append({"mechanism": _f12(None, p.get("ref")), "what": "glyph contains visible geometry that is in no source", "glyph": name, "piece_bbox": geom.bbox([gc_]), "format": fmt, "config": cfg})
         c["outlines_matched"] = c.get("outlines_matched", 0) + len(used)
         if len(ref) >= 2 or any(p["transformed"] for p in pieces):
             nontriv += 1
@@ -227,6 +237,8 @@ def run_case(case):
                 pr, st = compare.compare_layers(ref, got_layers, tol)
                 for p in pr:
                     p.update({"glyph": name, "config": cfg, "claim": "COLRv0 image (solid-only source)"})
+                    if p.get("ref_bbox") and not p.get("mechanism"):
+                        p["mechanism"] = _f12(p["ref_bbox"], p.get("got_ref"))
                     res["violations"].append(p)
                 c["v0_image_glyphs"] = c.get("v0_image_glyphs", 0) + 1
                 c["v0_layers_with_alpha"] = c.get("v0_layers_with_alpha", 0) + sum(1 for l in got_layers if l.paint.alpha < 0.999)
@@ -247,7 +259,7 @@ def run_case(case):
                 smax = max(l.sigma for l in got_layers)
                 if base is None or max(base[0] - un[0], base[1] - un[1], un[2] - base[2], un[3] - base[3]) > (0.5 + 0.001 * built.cfg.upem) * smax + 0.5 + max(l.err for l in got_layers) + 0.01:
                     mech = None
-                    if fmt.startswith("cff") and max(un[2] - un[0], un[3] - un[1]) > 32000:
+                    if fmt.startswith("cff") and (max(un[2] - un[0], un[3] - un[1]) > 32000 or rc._cff_wrapped(font, name) or any(rc._cff_wrapped(font, l.ref) for l in got_layers)):
                         mech = "F12-cff-charstring-delta-overflow"
                     res["violations"].append({"what": "COLRv0 base glyph bounds do not cover its layers", "glyph": name, "base": base, "layers_union": un, "config": cfg, "mechanism": mech})
     for v in contracts.violations():
